@@ -17,8 +17,11 @@ does - the ring is NOT consulted; model: C12's `pickT` / `fallbackT` of `Model/R
 an unknown keyspace or without table by the ring as in `plan`;
 `hplan[.<tag>] <n> (<mode> <topology>)×n <keyspace strategies> <config> <request> <samples>`: the plans are computed on
 the state a HISTORY of metadata refreshes produced (`runHistory`: C04's model of `calculate_new_topology`, composed with
-the plan model by `PlanRefresh.clusterOf`) - first mode `n`, then `r` / `t` (rejecting filter), `R` / `T` (accepting), `F` / `G` (full / topology-only refresh with
+the plan model by `PlanRefresh.clusterOf`) - first mode `n` (or `N`: built with per-peer verdicts), then `r` / `t` (rejecting filter), `R` / `T` (accepting), `F` / `G` (full / topology-only refresh with
 a per-peer verdict: flag `a` = accepted, the rejected peers carry `d`); no sharders;
+`xplan[.<tag>] <topology> <keyspace strategies> <config> <request> <flip> <samples>`: as `plan`, but the connected-override of
+the nodes `<flip>` is inverted between the first and the second `Plan::next()` (model `PlanRefresh.plan2`: `pick` on the
+flags, `fallback` on the flipped liveness; the line carries `dups=<k>` like `lplan`);
 `lplan[.<tag>] <topology> <keyspace strategies> <config> <request> <samples>`: as `plan` with LATENCY AWARENESS on (outside
 the property's quantifier; an observation): flag `p` = penalised; the model is `planOf (pick on the cluster where the
 penalised nodes count as not alive) (wrapLA pen (fallback))` (`Model/PlanRefresh.lean`), the line carries `dups=<k>` =
@@ -264,6 +267,13 @@ structure PolicyM where
   pick : RhoPick → Option Target
   fallback : RhoFb → List Target
   groups : RhoFb → List (List Target)
+  /-- `fallback` / its groups as `Plan` sees them when `pick()` answered nothing (it then calls `fallback()` inside the
+  same first `next()`; differs from `fallback` only for the two-snapshot cases). -/
+  fallbackNoPick : RhoFb → List Target := fallback
+  groupsNoPick : RhoFb → List (List Target) := groups
+
+def PolicyM.simple (p : RhoPick → Option Target) (f : RhoFb → List Target) (g : RhoFb → List (List Target)) : PolicyM :=
+  { pick := p, fallback := f, groups := g }
 
 /-- Prints the model's line for one case and judges the implementation's samples (see the module comment). -/
 def check (ps : List (Peer × String)) (pm : PolicyM) (lwt shuffle : Bool) (n nS : Nat) (impl : String)
@@ -298,6 +308,7 @@ def check (ps : List (Peer × String)) (pm : PolicyM) (lwt shuffle : Bool) (n nS
       let ρ : RhoPick := ⟨i, j, i, j, i, j, i, i, i, i, i⟩
       (ρ, pm.pick ρ)))).foldl
       (fun acc x => if acc.any (fun y => y.2 == x.2) then acc else acc ++ [x]) []
+  let groupsAtNoPick := (List.range n).map (fun k => pm.groupsNoPick ⟨[], [], [], k, k, k⟩)
   let fbOk (f : List Obs) : Bool := (pm.fallback (recoverFb groupsAt lwt pen f [])).map obsOf == f
   let fbObs0 : List Obs := fb0.map obsOf
   let planOk (l : List (Nat × Nat)) : Bool :=
@@ -314,8 +325,8 @@ def check (ps : List (Peer × String)) (pm : PolicyM) (lwt shuffle : Bool) (n nS
              -- the literal filter of `Plan::next` removes the picked target from the fallback only if it is in it literally
              -- (always, for a policy without latency awareness)
              recoverFb groupsAt lwt pen (asObs.drop 1) (if fbObs0.contains (obsOf t) then [obsOf t] else [])
-           | none => recoverFb groupsAt lwt pen asObs []
-         let fb := pm.fallback ρf
+           | none => recoverFb groupsAtNoPick lwt pen asObs []
+         let fb := match pk with | some _ => pm.fallback ρf | none => pm.fallbackNoPick ρf
          let r := planRun (pm.pick ρp) fb (fb.length + 3) .created
          r == planOf (pm.pick ρp) fb && matchPlan ps r l))
   match ws.dropWhile (· != "|") with
@@ -404,7 +415,7 @@ def runHistory (ks : List Strategy) : List String → Option CState → List (Pe
     | some tx =>
       if tx.any (fun p => p.2.contains 's') then none else
       -- `F` / `G`: a host filter with one verdict per peer (flag `a` = accepted; the rejected ones carry `d`)
-      let filtered := mode == "F" || mode == "G"
+      let filtered := mode == "F" || mode == "G" || mode == "N"
       if filtered && tx.any (fun p => p.2.contains 'a' == p.2.contains 'd') then none else
       let peers : List MPeer := (tx.zipIdx).map (fun (p, i) =>
         ⟨p.1.node, i, p.1.tokens, if filtered then p.2.contains 'a' else (mode == "R" || mode == "T")⟩)
@@ -413,6 +424,7 @@ def runHistory (ks : List Strategy) : List String → Option CState → List (Pe
       let next : Option CState :=
         match mode, st with
         | "n", none => some (CState.fresh peers fetched)
+        | "N", none => some (CState.fresh peers fetched)
         | "r", some st => some ((st.setEnabled []).refresh peers fetched)
         | "t", some st => some ((st.setEnabled []).refreshTopology peers)
         | "R", some st => some (st.refresh peers fetched)
@@ -422,7 +434,11 @@ def runHistory (ks : List Strategy) : List String → Option CState → List (Pe
         | _, _ => none
       match next with
       | none => none
-      | some st' => runHistory ks rest (some (st'.setEnabled ids)) tx
+      | some st' =>
+        -- a filtered step: the model's `is_enabled` of every node right after the refresh is the verdict
+        -- (`Props.C05Refresh.pickNode_enabled`; the harness asserts the REAL `pool.is_some()` to be the verdict as well)
+        if filtered && st'.known.map (fun k => (k.node.id, k.enabled)) != peers.map (fun p => (p.node.id, p.accepted)) then none
+        else runHistory ks rest (some (st'.setEnabled ids)) tx
   | _, _, _ => none
 
 def run (case impl : String) : String :=
@@ -437,7 +453,7 @@ def run (case impl : String) : String :=
         let cl := mkCluster ps ks rq.token
         let pen := if ps.all (fun p => p.2.contains 'p') then [] else (ps.filter (fun p => p.2.contains 'p')).map (·.1.node.id)
         let clP := withDown cl (cl.down ++ pen)
-        check ps ⟨pick clP cfg rq, fun ρ => wrapLA pen (fallback cl cfg rq ρ), fallbackGroups cl cfg rq⟩ rq.routeAsLwt
+        check ps (PolicyM.simple (pick clP cfg rq) (fun ρ => wrapLA pen (fallback cl cfg rq ρ)) (fallbackGroups cl cfg rq)) rq.routeAsLwt
           shuffle ((allNodes cl).length + 1) nS impl pen true
       | _, _, _, _, _ => "bad-case"
     else
@@ -446,10 +462,26 @@ def run (case impl : String) : String :=
     | some ps, some ks, some (cfg, shuffle), some rq, some nS =>
       if nS == 0 || ps.any (fun p => (parseSharder p.2).isNone) then "bad-case" else
       let cl := mkCluster ps ks rq.token
-      check ps ⟨pick cl cfg rq, fallback cl cfg rq, fallbackGroups cl cfg rq⟩ rq.routeAsLwt shuffle
+      check ps (PolicyM.simple (pick cl cfg rq) (fallback cl cfg rq) (fallbackGroups cl cfg rq)) rq.routeAsLwt shuffle
         ((allNodes cl).length + 1) nS impl
     | _, _, _, _, _ => "bad-case"
   | [head, topo, kss, cfg, req, tablet, nSamples] =>
+    if head == "xplan" || head.startsWith "xplan." then
+      -- two liveness snapshots: `pick()` on the flags, the lazily called `fallback()` after the connected-override of the
+      -- nodes `tablet` (= flip list) was inverted: `PlanRefresh.plan2`
+      match parseTopologyEx topo, parseStrategies kss, parseConfig cfg, parseRequest req, nSamples.toNat?,
+        (if tablet == "-" then some [] else parseNatList tablet) with
+      | some ps, some ks, some (cfg, shuffle), some rq, some nS, some flip =>
+        if nS == 0 || ps.any (fun p => (parseSharder p.2).isNone) ||
+          flip.any (fun i => !ps.any (fun p => p.1.node.id == i)) then "bad-case" else
+        let cl := mkCluster ps ks rq.token
+        let down₂ := cl.down.filter (fun i => !flip.contains i) ++ flip.filter (fun i => !cl.down.contains i)
+        let cl₂ := withDown cl down₂
+        check ps ⟨pick cl cfg rq, fallback cl₂ cfg rq, fallbackGroups cl₂ cfg rq, fallback cl cfg rq, fallbackGroups cl cfg rq⟩
+          rq.routeAsLwt shuffle
+          ((allNodes cl).length + 1) nS impl [] true
+      | _, _, _, _, _, _ => "bad-case"
+    else
     if !(head == "tplan" || head.startsWith "tplan.") then "bad-case" else
     match parseTopologyEx topo, parseStrategies kss, parseConfig cfg, parseRequest req, nSamples.toNat? with
     | some ps, some ks, some (cfg, shuffle), some rq, some nS =>
@@ -461,7 +493,7 @@ def run (case impl : String) : String :=
         -- the tablet table is `(k0, t)`: `tablets_for_table` answers it for requests on keyspace k0 only; any other
         -- request (another / unknown keyspace, no table) is routed by the ring
         if rq.table != some 0 then
-          check ps ⟨pick cl cfg rq, fallback cl cfg rq, fallbackGroups cl cfg rq⟩ rq.routeAsLwt shuffle
+          check ps (PolicyM.simple (pick cl cfg rq) (fallback cl cfg rq) (fallbackGroups cl cfg rq)) rq.routeAsLwt shuffle
             ((allNodes cl).length + 1) nS impl
         else
         let reps := coveringReps tabs rq.token
@@ -469,7 +501,7 @@ def run (case impl : String) : String :=
         let groups : RhoFb → List (List Target) := fun ρ =>
           (if tokenAware cl cfg rq then replicaGroupsT cl cfg rq V ρ else [[], [], []]) ++
             (fallbackGroups cl cfg (rqNoToken rq) ρ).drop 3
-        check ps ⟨pickT cl cfg rq V, fallbackT cl cfg rq V, groups⟩ rq.routeAsLwt shuffle
+        check ps (PolicyM.simple (pickT cl cfg rq V) (fallbackT cl cfg rq V) (groups)) rq.routeAsLwt shuffle
           ((allNodes cl).length + reps.length + 1) nS impl
     | _, _, _, _, _ => "bad-case"
   | head :: nSteps :: rest =>
@@ -494,7 +526,7 @@ def run (case impl : String) : String :=
             let ρf0 : RhoFb := ⟨[], [], [], 0, 0, 0⟩
             if fallback cl cfg rq ρf0 != fallback fresh cfg rq ρf0 || cl.disabled != fresh.disabled then
               "MODEL-INCONSISTENT history/fresh" else
-            check lastPs ⟨pick cl cfg rq, fallback cl cfg rq, fallbackGroups cl cfg rq⟩ rq.routeAsLwt shuffle
+            check lastPs (PolicyM.simple (pick cl cfg rq) (fallback cl cfg rq) (fallbackGroups cl cfg rq)) rq.routeAsLwt shuffle
               ((allNodes cl).length + 1) nS impl
         | _, _, _, _ => "bad-case"
       | _ => "bad-case"
